@@ -34,6 +34,18 @@ CLAIMED = {
  "C15": ("The real worker.doRetry + doOnce run against a harness http.RoundTripper whose per-attempt outcome (success, retryable / key-usage / permanent token error, HTTP 503 / 400, unexpected EOF, connection refused, timeout, malformed reply) and the caller's cancellation point are symbolic choices: attempts <= configured retries, success iff the last executed attempt succeeded, retry only after a transient failure, classification (KeyUsageError, ResponseError, sentinel errors) intact, transient failures retried to the limit. tokencache.Cache.GetKey from an arbitrary cache state: a pinned key id is never served from a cached key with another id, never writes the cache, expired entries are not served, mutex released.",
          "Trusted: engine (context model: a timeout eventually fires, no goroutines; http.Client.Do = Transport.RoundTrip with url.Error wrapping; json identity), z3. Bounds: retries <=3 (4 thorough; 0 = default 5). The worker-side handler (cookie check) lives in a cgo package (miekg/pkcs11) and is not loaded; real HTTP / process supervision are outside.",
          "DESIGN.md §4 C15"),
+ "C01": ("Partial (structural round trip, CAB): for every well-formed single-part cabinet in the bound (unsigned or already signed, all non-layout bytes symbolic) and every signature blob, the real Digest -> MakePatch -> (patch applied per C12) -> Digest pipeline succeeds, the verifier-side parse finds exactly the embedded blob and recomputes the digest that was signed.",
+         "Trusted: engine, hash modelled injective, patch application per C12. The CMS blob itself (crypto, ASN.1), every other format, key types and client/server transport are outside this revision's claim.",
+         "DESIGN.md §4 C01"),
+ "C02": ("Partial (CAB): two-copy query - a well-formed cabinet x and a copy y differing in one byte at any position outside the format's unsigned fields: y is rejected or its content digest differs (hash injective), so the constant-time comparison with the signed digest fails; the unsigned fields (Reserved1, CabNumber) are shown to be exactly the undigested ones.",
+         "Trusted: engine, hash injectivity. CMS-level mutations (ASN.1), chain validation, other verifiers are outside.",
+         "DESIGN.md §4 C02"),
+ "C03": ("Partial (CAB + patch semantics): signing changes only signature metadata - folder data bytes are identical, folder offsets move by exactly the inserted header bytes, other header fields are carried over, only the padded signature is appended; byte-exact patch application itself is C12.",
+         "Trusted: engine; the format model in the harness (MS cabinet header layout). Independent third-party readers as programs and other formats are outside.",
+         "DESIGN.md §4 C03"),
+ "C08": ("Partial (CAB): the content digest is identical for an unsigned cabinet, its signed form and its re-signed form (sign^2 with arbitrary blobs), the second signature replaces the first (no stacking, old bytes removed), payload equals the original.",
+         "Trusted: engine, hash injectivity. n-fold histories beyond 2 follow by induction from digest invariance + replacement (argued, not run). Other formats outside this revision.",
+         "DESIGN.md §4 C08"),
 }
 
 NOT_APPLICABLE = {
